@@ -46,3 +46,26 @@ package tchannel
 //@   property C17
 //@ func (c *SubChannel) BeginCall(ctx context.Context, methodName string, callOptions *CallOptions) (call *OutboundCall, err error)
 //@   property C17
+
+// "one response per id": a call req that the relay answers itself -- a local
+// service's handler, or the error frame for a fragmented call to a local service
+// -- is reported as taken, so that it is not ALSO relayed (and answered again by
+// the destination): when the relay reports "not taken", nothing has been sent
+// for the call.
+//@ func (r *Relayer) handleLocalCallReq(cr *lazyCallReq) (shouldRelease bool)
+//@   label a-call-not-taken-locally-has-not-been-answered
+//@   ensures !shouldRelease ==> errAttempts(old(r.conn)) == old(errAttempts(r.conn))
+//@   property C10
+
+// "duplicate in-flight id is rejected as a protocol error": the ONLY ordinary
+// error frame the inbound admission sends is the closed-channel refusal, and it
+// sends it only right after it has seen the connection not active; every other
+// failure to admit a call req (an id that is still active, a stopped exchange
+// table) goes through protocolError, which fails the connection.
+// (lastseen: the state the latest readState call returned, verif_contracts.go)
+//@ func (c *Connection) handleCallReq(frame *Frame) (release bool)
+//@   label ordinary-refusal-only-for-a-connection-seen-closing
+//@   atcall SendSystemError lastseen(c) != connectionActive
+//@   label ordinary-refusal-is-the-closed-channel-error
+//@   atcall SendSystemError arg3 == ErrChannelClosed
+//@   property C10 C04
